@@ -43,8 +43,14 @@ Definition spec_pipeline (tbl : term) := spec_apply_focus (tbl_M tbl) (tbl_V tbl
 
 Definition all_rx_ok (tbl : term) (c : af_cfg) : bool :=
   let V := tbl_V tbl in
+  (* a tag filter is in error only when it is NOT a numeric range and one of its comma pieces does not
+     compile ("+10", "5kb:" are ranges and are never handed to the regexp compiler) *)
   let tag_ok := fun v => String.eqb v "" ||
-    forallb V (split_on "," (match cut_first "=" v with Some (_, x) => x | None => v end)) in
+    (let x := match cut_first "=" v with Some (_, x) => x | None => v end in
+     match parse_tag_filter_range uts x with
+     | Some _ => true
+     | None => forallb V (split_on "," x)
+     end) in
   rx_ok V (c_focus c) && rx_ok V (c_ignore c) && rx_ok V (c_hide c) && rx_ok V (c_show c) && rx_ok V (c_showfrom c)
   && rx_ok V (c_tagshow c) && rx_ok V (c_taghide c) && rx_ok V (c_prunefrom c)
   && tag_ok (c_tagfocus c) && tag_ok (c_tagignore c).
